@@ -196,7 +196,24 @@ func (e *env) run(c *caseIn) (*rec, error) {
 	e.r.Shared.Reset()
 	ci := e.names.Cid(fmt.Sprintf("c%d", 1+e.n%7))
 	if c.Existing {
-		old := api.PinWithOpts(ci, api.PinOptions{ReplicationFactorMin: c.Rmin, ReplicationFactorMax: c.Rmax, Name: "old"})
+		oldOpts := api.PinOptions{ReplicationFactorMin: c.Rmin, ReplicationFactorMax: c.Rmax, Name: "old"}
+		// half of the eligible existing pins differ from the request in ONE replication factor only (same name,
+		// nothing else): the factors of the request decide, the "options unchanged, re-submit what there is"
+		// shortcut of Cluster.pin() must not apply
+		// (path "pin" only: PeerRemove re-allocates with the factors of the STORED pin)
+		if c.Path == "pin" && !c.UseDefault && len(c.Prio) == 0 && c.Rmin >= 1 && c.Rmax >= c.Rmin {
+			switch c.ID % 4 {
+			case 1:
+				if c.Rmin > 1 {
+					oldOpts.Name = "new"
+					oldOpts.ReplicationFactorMin = c.Rmin - 1
+				}
+			case 3:
+				oldOpts.Name = "new"
+				oldOpts.ReplicationFactorMax = c.Rmax + 1
+			}
+		}
+		old := api.PinWithOpts(ci, oldOpts)
 		old.Allocations = e.names.Peers(c.Cur)
 		if err := e.r.Shared.State.Add(ctx, old); err != nil {
 			return nil, err
